@@ -192,6 +192,9 @@ func (ex *Exec) Branch(c *Term) bool {
 			alt := append(append([]int{}, ex.trace...), 0)
 			ex.run.push(alt)
 			d = 1
+			if forkStats {
+				ex.run.countFork(ex.where())
+			}
 		}
 	}
 	ex.trace = append(ex.trace, d)
@@ -211,6 +214,7 @@ func (ex *Exec) Branch(c *Term) bool {
 }
 
 var debugTrace = os.Getenv("VERIF_TRACE") != ""
+var forkStats = os.Getenv("VERIF_FORKSTATS") != ""
 
 // Choose makes an exhaustive concrete case split 0..n-1.
 func (ex *Exec) Choose(n int) int {
